@@ -70,6 +70,7 @@ def work(arg):
         fn = SCEN[case['scen']]
         ex = Explorer(logic=opts.get('logic', 'QF_NRA'), qtimeout_ms=opts.get('qtimeout_ms', 20000),
                       max_paths=opts.get('max_paths', 400))
+        ex.xcheck_every = int(opts.get('xcheck_every', 0) or 0)
         holder = {}
 
         def body():
@@ -245,6 +246,8 @@ def default_sig(case, label):
 
 
 def run_check(pid, cases, tier, seed, opts, meta):
+    opts = dict(opts)
+    opts.setdefault('xcheck_every', 40 if tier == 'quick' else 15)
     """meta: dict(functions=[...], bounds=str, outside=str, assumptions=[...], level=..., sig=callable|None,
     tv_max=int, explanation=str)"""
     t0 = time.time()
@@ -396,6 +399,8 @@ def run_check(pid, cases, tier, seed, opts, meta):
             'inconclusive': {'solver_unknown': tot['unknown'], 'unsupported_paths': tot['unsupported'],
                              'case_timeouts': len(timeouts), 'path_budget_truncated_cases': len(truncated)},
             'exception_paths': tot['exceptions'],
+            'second_solver': {'binary': '/usr/bin/z3 4.8.12 on exported SMT-LIB2', 'queries_rechecked': int(stats.get('xcheck_done', 0)), 'agree': int(stats.get('xcheck_agree', 0)),
+                              'inconclusive': int(stats.get('xcheck_inconclusive', 0)), 'disagree': int(stats.get('xcheck_disagree', 0))},
             'translator_validation': {'traces_ok': tv_ok, 'disagreements': len(tv_bad), 'skipped': tv_skipped},
             'counterexamples': {'candidates': len(cands), 'replayed_violations': len(violations),
                                 'known_findings': {k: v['n'] for k, v in known_hits.items()},
@@ -417,9 +422,11 @@ def run_check(pid, cases, tier, seed, opts, meta):
         len(mismatches), tv_ok, len(tv_bad), inconclusive, wall, stats.get('solver_s', 0.0)))
     slow = sorted(results, key=lambda r: -r['wall_s'])[:3]
     print('slowest cases: ' + '; '.join('%.1fs %s' % (r['wall_s'], json.dumps(r['case'])[:160]) for r in slow))
+    if stats.get('xcheck_disagree', 0):
+        print('SOLVER-DISAGREEMENT: %d re-checked queries got a different verdict from z3 4.8.12' % stats['xcheck_disagree'])
     if violations:
         return 1
-    if errors or harness_msgs or mismatches or tv_bad:
+    if errors or harness_msgs or mismatches or tv_bad or stats.get('xcheck_disagree', 0):
         return 2
     if tot['obligations'] == 0:
         print('HARNESS-ERROR: no obligations were generated')
